@@ -8,5 +8,6 @@ open PgmVerif
 #print axioms PgmVerif.C11_delta_exact
 #print axioms PgmVerif.C11_hc_monotone
 #print axioms PgmVerif.C11_hc_indegree
+#print axioms PgmVerif.C11_hc_budget
 #print axioms PgmVerif.C11_defaults_tie
 #print axioms PgmVerif.C11_tree_scale_invariant
